@@ -34,11 +34,22 @@ pub const F_MAPS: u32 = 256;
 pub const F_MEM: u32 = 512;
 
 /// one more path (matched by suffix) that fails with a chosen errno; null = none
-static ONE_PATH: std::sync::atomic::AtomicPtr<(Vec<u8>, i32)> = std::sync::atomic::AtomicPtr::new(std::ptr::null_mut());
+static ONE_PATH: std::sync::atomic::AtomicPtr<(Vec<u8>, i32, Option<std::ffi::CString>)> = std::sync::atomic::AtomicPtr::new(std::ptr::null_mut());
 
 /// Runs `f` while opening any path that ends in `suffix` fails with `errno`.
 pub fn with_failing_path<R>(suffix: &[u8], errno: i32, f: impl FnOnce() -> R) -> (R, u32) {
-    let b = Box::into_raw(Box::new((suffix.to_vec(), errno)));
+    with_path_rule(suffix, errno, None, f)
+}
+
+/// Runs `f` while opening any path that ends in `suffix` opens `instead` (a file the harness wrote):
+/// the way to hand the code under test a /proc file with chosen content.
+pub fn with_redirected_path<R>(suffix: &[u8], instead: &std::path::Path, f: impl FnOnce() -> R) -> (R, u32) {
+    use std::os::unix::ffi::OsStrExt;
+    with_path_rule(suffix, 0, std::ffi::CString::new(instead.as_os_str().as_bytes()).ok(), f)
+}
+
+fn with_path_rule<R>(suffix: &[u8], errno: i32, instead: Option<std::ffi::CString>, f: impl FnOnce() -> R) -> (R, u32) {
+    let b = Box::into_raw(Box::new((suffix.to_vec(), errno, instead)));
     DENIED.store(0, Ordering::SeqCst);
     ONE_PATH.store(b, Ordering::SeqCst);
     let r = f();
@@ -70,6 +81,9 @@ unsafe fn shim(path: *const libc::c_char, flags: libc::c_int, mode: libc::c_uint
     let one = ONE_PATH.load(Ordering::SeqCst);
     if !one.is_null() && !path.is_null() && std::ffi::CStr::from_ptr(path).to_bytes().ends_with(&(*one).0) {
         DENIED.fetch_add(1, Ordering::SeqCst);
+        if let Some(instead) = &(*one).2 {
+            return libc::syscall(libc::SYS_openat, libc::AT_FDCWD, instead.as_ptr(), flags, mode) as libc::c_int;
+        }
         *libc::__errno_location() = (*one).1;
         return -1;
     }
